@@ -1,5 +1,361 @@
-//! Oracles for the stream parser (ElfStream) streams.
+//! Oracles for the stream parser: equivalence with the slice parser (C07), bounded memory and
+//! lazy I/O (C08), fault handling (C17), table location (C05, stream side).
+use crate::show::*;
+use crate::stream::*;
+use elf::abi;
+use elf::endian::AnyEndian;
+use elf::file::Class;
+use elf::ElfBytes;
+
 type V = Result<(), String>;
-pub fn oracle_line3(_line: &str, _ann: &str) -> V {
+
+fn nat(s: &str) -> usize {
+    s.parse::<usize>().unwrap_or(0)
+}
+
+/// The slice parser's answer to a stream op, rendered by content (same format as `stream_op`).
+fn bytes_op(f: &ElfBytes<'_, AnyEndian>, q: &str, file: &[u8]) -> String {
+    let kind = q.chars().next().unwrap_or('?');
+    let body = &q[kind.len_utf8().min(q.len())..];
+    let range_of = |off: u64, size: u64| -> Option<&[u8]> {
+        let s = off as usize;
+        let e = s.checked_add(size as usize)?;
+        file.get(s..e)
+    };
+    match kind {
+        'T' => {
+            let r = f.section_headers_with_strtab();
+            format!(
+                "T={}",
+                show_res(&r, |(sh, t)| show_opt(t, |t| {
+                    let idx = if f.ehdr.e_shstrndx == 0xffff {
+                        sh.and_then(|s| s.get(0).ok()).map(|x| x.sh_link as usize).unwrap_or(0)
+                    } else {
+                        f.ehdr.e_shstrndx as usize
+                    };
+                    let whole = sh.and_then(|s| s.get(idx).ok()).and_then(|x| range_of(x.sh_offset, x.sh_size));
+                    show_strtab_c(t, whole)
+                }))
+            )
+        }
+        'S' => {
+            let i = nat(body);
+            let sh = match f.section_headers().and_then(|t| t.get(i).ok()) {
+                Some(sh) => sh,
+                None => return format!("S{}=oob", i),
+            };
+            let d = show_res(&f.section_data(&sh), |(d, c)| format!("{},{}", content(d), show_opt(c, |c| c.show())));
+            let whole = range_of(sh.sh_offset, sh.sh_size);
+            let st = show_res(&f.section_data_as_strtab(&sh), |t| show_strtab_c(t, whole));
+            let rl = match f.section_data_as_rels(&sh) {
+                Ok(it) => { let v: Vec<String> = it.map(|x| x.show()).collect(); format!("ok ok [{}] post=ok none", v.join(" ")) }
+                Err(e) => format!("err {}", show_err(&e)),
+            };
+            let ra = match f.section_data_as_relas(&sh) {
+                Ok(it) => { let v: Vec<String> = it.map(|x| x.show()).collect(); format!("ok ok [{}] post=ok none", v.join(" ")) }
+                Err(e) => format!("err {}", show_err(&e)),
+            };
+            let nt = match f.section_data_as_notes(&sh) {
+                Ok(it) => format!("ok {}", notes_transcript_c(it)),
+                Err(e) => format!("err {}", show_err(&e)),
+            };
+            format!("S{}={} data={} strtab={} rels={} relas={} notes={}", i, sh.show(), d, st, rl, ra, nt)
+        }
+        'P' => {
+            let i = nat(body);
+            let ph = match f.segments().and_then(|t| t.get(i).ok()) {
+                Some(ph) => ph,
+                None => return format!("P{}=oob", i),
+            };
+            let nt = match f.segment_data_as_notes(&ph) {
+                Ok(it) => format!("ok {}", notes_transcript_c(it)),
+                Err(e) => format!("err {}", show_err(&e)),
+            };
+            format!("P{}={} notes={}", i, ph.show(), nt)
+        }
+        'N' => {
+            let name = unhex(body);
+            match std::str::from_utf8(&name) {
+                Ok(n) => format!("N={}", show_res(&f.section_header_by_name(n), |o| show_opt(o, |x| x.show()))),
+                Err(_) => "N=not-utf8".into(),
+            }
+        }
+        'Y' | 'D' => {
+            let ty = if kind == 'Y' { abi::SHT_SYMTAB } else { abi::SHT_DYNSYM };
+            let whole = f.section_headers().and_then(|shdrs| {
+                shdrs.iter().find(|x| x.sh_type == ty).and_then(|sym| shdrs.get(sym.sh_link as usize).ok())
+            }).and_then(|st| range_of(st.sh_offset, st.sh_size));
+            let r = if kind == 'Y' { f.symbol_table() } else { f.dynamic_symbol_table() };
+            format!("{}={}", kind, show_res(&r, |o| show_opt(o, |(t, st)| format!("{},{}", table_digest(t), show_strtab_c(st, whole)))))
+        }
+        'd' => format!("d={}", show_res(&f.dynamic(), |o| show_opt(o, |t| table_digest(t)))),
+        'V' => format!("V={}", show_res(&f.symbol_version_table(), |o| show_opt(o, |t| symver_queries_c(t, body)))),
+        _ => "bad-query".into(),
+    }
+}
+
+fn status(piece: &str) -> &str {
+    // piece looks like `key=ok …` / `key=err …`
+    match piece.split_once('=') {
+        Some((_, v)) if v.starts_with("ok") => "ok",
+        Some((_, v)) if v.starts_with("err") => "err",
+        _ => "other",
+    }
+}
+
+fn pieces(s: &str) -> Vec<String> {
+    let keys = [" data=", " strtab=", " rels=", " relas=", " notes="];
+    let mut cuts = vec![0usize];
+    for k in keys {
+        if let Some(p) = s.find(k) {
+            cuts.push(p + 1);
+        }
+    }
+    cuts.sort();
+    let mut out = vec![];
+    for (i, c) in cuts.iter().enumerate() {
+        let e = if i + 1 < cuts.len() { cuts[i + 1] } else { s.len() };
+        out.push(s[*c..e].trim_end().to_string());
+    }
+    out
+}
+
+/// C07: stream ≈ slice, for legal readers and any history
+fn oracle_stream(spec: &str, sched: &str, ops: &str, file: &[u8], ann: &str) -> V {
+    let run = run_stream(spec, sched, ops, file);
+    let parts: Vec<&str> = run.reply.split(';').collect();
+    // C08: bounded allocation — no single allocation exceeds a small multiple of the stream length
+    let bound = 8 * file.len() + 8192;
+    if run.max_alloc > bound {
+        return Err(format!("C08: a single allocation of {} bytes on a {}-byte stream (bound {})", run.max_alloc, file.len(), bound));
+    }
+    if run.reply.contains("panic") {
+        return Err("C08: the stream parser panicked".into());
+    }
+    if spec != "any" {
+        return Ok(());
+    }
+    let legal = sched.split(',').all(|t| t == "-" || t == "o" || t == "i" || t.starts_with('s'));
+    let slice = ElfBytes::<AnyEndian>::minimal_parse(file);
+    // C08: lazy reads — everything read is a range the headers designate
+    if legal {
+        if let Ok(f) = &slice {
+            let mut allowed: Vec<(u64, u64)> = vec![(0, 16)];
+            let (tail, shent, phent) = match f.ehdr.class { Class::ELF32 => (36u64, 40u64, 32u64), Class::ELF64 => (48, 64, 56) };
+            allowed.push((16, tail));
+            allowed.push((f.ehdr.e_shoff, shent));
+            if let Some(t) = f.section_headers() {
+                allowed.push((f.ehdr.e_shoff, t.len() as u64 * shent));
+                for sh in t.iter() { allowed.push((sh.sh_offset, sh.sh_size)); }
+            }
+            if let Some(t) = f.segments() {
+                allowed.push((f.ehdr.e_phoff, t.len() as u64 * phent));
+                for ph in t.iter() { allowed.push((ph.p_offset, ph.p_filesz)); }
+            }
+            if let Some(io) = parts.iter().find(|p| p.starts_with("io=")) {
+                for item in io[3..].split(',') {
+                    if item == "end" || item.is_empty() { continue; }
+                    if let Some((p, b)) = item.split_once(':') {
+                        let (p, b): (u64, u64) = (p.parse().unwrap_or(0), b.parse().unwrap_or(0));
+                        if b > 0 && !allowed.iter().any(|(ap, al)| *ap == p && *al == b) {
+                            return Err(format!("C08: read of {} bytes at {} is not a range the headers designate", b, p));
+                        }
+                    }
+                }
+            }
+        }
+    }
+    if !legal {
+        return Ok(());
+    }
+    // C07 open equivalence
+    let open_ok = parts[0].starts_with("open=ok");
+    match (&slice, open_ok) {
+        (Ok(_), false) => return Err(format!("C05: slice opens but stream fails: {}", parts[0])),
+        (Err(_), true) => return Err("C05: stream opens but slice fails".into()),
+        (Err(_), false) => return Ok(()),
+        _ => {}
+    }
+    let f = slice.unwrap();
+    let want_head = format!(
+        "open=ok {} shdrs={} phdrs={}",
+        show_ehdr(&f.ehdr),
+        match f.section_headers() { Some(t) => table_digest(&t), None => list_digest::<elf::section::SectionHeader>(&[]) },
+        match f.segments() { Some(t) => table_digest(&t), None => list_digest::<elf::segment::ProgramHeader>(&[]) },
+    );
+    if parts[0] != want_head {
+        return Err(format!("C05: headers differ: stream `{}` slice `{}`", &parts[0][..parts[0].len().min(200)], &want_head[..want_head.len().min(200)]));
+    }
+    // query-level clause: scoped to files whose section table is absent or non-empty
+    if let Some(t) = f.section_headers() {
+        if t.is_empty() { return Ok(()); }
+    }
+    let _ = ann;
+    if ops == "-" { return Ok(()); }
+    // re-split the stream reply per op (V contains ';')
+    let mut idx = 1usize;
+    for q in ops.split(',') {
+        let want = bytes_op(&f, q, file);
+        let nparts = want.split(';').count();
+        // stream's reply for this op spans the same number of ';' parts when ok; when it is an error it is one part
+        let got_first = parts.get(idx).copied().unwrap_or("");
+        let got: String = if q.starts_with('V') && got_first.starts_with("V=ok some") {
+            let g = parts[idx..(idx + nparts).min(parts.len())].join(";");
+            idx += nparts;
+            g
+        } else {
+            idx += 1;
+            got_first.to_string()
+        };
+        let kind = q.chars().next().unwrap_or('?');
+        // compressed sections are outside the query-level clause
+        if kind == 'S' {
+            let i = nat(&q[1..]);
+            if let Some(sh) = f.section_headers().and_then(|t| t.get(i).ok()) {
+                if sh.sh_flags & abi::SHF_COMPRESSED as u64 != 0 { continue; }
+            }
+        }
+        if (kind == 'T' || kind == 'N' || kind == 'Y' || kind == 'D' || kind == 'V') && involves_compressed(&f) { continue; }
+        if want == got { continue; }
+        let exact = matches!(kind, 'Y' | 'D' | 'V' | 'P');
+        let (pw, pg) = (pieces(&want), pieces(&got));
+        if pw.len() != pg.len() {
+            return Err(format!("C07: `{}`: stream `{}` vs slice `{}`", q, &got[..got.len().min(200)], &want[..want.len().min(200)]));
+        }
+        for (w, g) in pw.iter().zip(&pg) {
+            if w == g { continue; }
+            let (sw, sg) = (status(w), status(g));
+            let data_piece = w.starts_with("data=");
+            if sw == "ok" && sg == "ok" {
+                return Err(format!("C07: `{}`: both succeed with different content: stream `{}` slice `{}`", q, &g[..g.len().min(160)], &w[..w.len().min(160)]));
+            }
+            if sw == "ok" && sg != "ok" {
+                return Err(format!("C07: `{}`: slice succeeds, stream fails: `{}`", q, &g[..g.len().min(160)]));
+            }
+            if (exact || data_piece) && sw != sg {
+                return Err(format!("C07: `{}`: success/failure must coincide: stream `{}` slice `{}`", q, &g[..g.len().min(160)], &w[..w.len().min(160)]));
+            }
+        }
+    }
     Ok(())
+}
+
+fn involves_compressed(f: &ElfBytes<'_, AnyEndian>) -> bool {
+    f.section_headers().map(|t| t.iter().any(|s| s.sh_flags & abi::SHF_COMPRESSED as u64 != 0)).unwrap_or(false)
+}
+
+/// C17: a fault surfaces as an error of the call it hits and leaves no residue
+fn oracle_streamfault(spec: &str, sched: &str, ops: &str, file: &[u8]) -> V {
+    let clean = run_stream(spec, "-", ops, file);
+    let faulty = run_stream(spec, sched, ops, file);
+    if faulty.reply.contains("panic") {
+        return Err("C17: panic under an I/O fault".into());
+    }
+    let cparts: Vec<&str> = clean.reply.split(';').collect();
+    let fparts: Vec<&str> = faulty.reply.split(';').collect();
+    let hard = sched.split(',').any(|t| t == "f" || t == "e");
+    if !fparts[0].starts_with("open=ok") {
+        // open failed: legitimate only if a hard fault was injected or the clean open fails the same way
+        if !hard && fparts[0] != cparts[0] {
+            return Err(format!("C17: open differs under a legal schedule: `{}` vs `{}`", fparts[0], cparts[0]));
+        }
+        return Ok(());
+    }
+    if fparts[0] != cparts[0] {
+        return Err(format!("C17: open succeeded under faults with different headers: `{}` vs `{}`", &fparts[0][..fparts[0].len().min(160)], &cparts[0][..cparts[0].len().min(160)]));
+    }
+    // per op (same segmentation as in oracle_stream): error or exactly the fault-free answer
+    let mut ci = 1usize;
+    let mut fi = 1usize;
+    for q in ops.split(',') {
+        if ops == "-" { break; }
+        let take = |parts: &Vec<&str>, i: &mut usize| -> String {
+            let first = parts.get(*i).copied().unwrap_or("").to_string();
+            if q.starts_with('V') && first.starts_with("V=ok some") {
+                let n = if q.len() > 1 { q[1..].split('.').count() * 2 } else { 1 };
+                let g = parts[*i..(*i + n).min(parts.len())].join(";");
+                *i += n;
+                g
+            } else {
+                *i += 1;
+                first
+            }
+        };
+        let c = take(&cparts, &mut ci);
+        let f = take(&fparts, &mut fi);
+        if c == f { continue; }
+        let (pc, pf) = (pieces(&c), pieces(&f));
+        if pc.len() != pf.len() {
+            if status(&f) == "err" { continue; }
+            return Err(format!("C17: `{}` after a fault: `{}` vs fault-free `{}`", q, &f[..f.len().min(160)], &c[..c.len().min(160)]));
+        }
+        for (x, y) in pc.iter().zip(&pf) {
+            if x != y && status(y) != "err" {
+                return Err(format!("C17: `{}`: answer under faults `{}` differs from the fault-free answer `{}`", q, &y[..y.len().min(160)], &x[..x.len().min(160)]));
+            }
+        }
+    }
+    Ok(())
+}
+
+/// C18 for the stream parser: every query on a truncated stream is an error or the full stream's answer
+fn oracle_sprefix(ops: &str, k: usize, file: &[u8], ann: &str) -> V {
+    let k = k.min(file.len());
+    let what = if ann == "suffix" { "appending bytes" } else { "truncation" };
+    let a = run_stream("any", "-", ops, &file[..k]);
+    let b = run_stream("any", "-", ops, file);
+    let pa: Vec<&str> = a.reply.split(';').collect();
+    let pb: Vec<&str> = b.reply.split(';').collect();
+    if !pa[0].starts_with("open=ok") {
+        return Ok(());
+    }
+    if pa[0] != pb[0] {
+        return Err(format!("C18: {} changed what open_stream returns: `{}` vs `{}`", what, &pa[0][..pa[0].len().min(160)], &pb[0][..pb[0].len().min(160)]));
+    }
+    let mut ia = 1usize;
+    let mut ib = 1usize;
+    for q in ops.split(',') {
+        if ops == "-" { break; }
+        let take = |parts: &Vec<&str>, i: &mut usize| -> String {
+            let first = parts.get(*i).copied().unwrap_or("").to_string();
+            if q.starts_with('V') && first.starts_with("V=ok some") {
+                let n = if q.len() > 1 { q[1..].split('.').count() * 2 } else { 1 };
+                let g = parts[*i..(*i + n).min(parts.len())].join(";");
+                *i += n;
+                g
+            } else {
+                *i += 1;
+                first
+            }
+        };
+        let x = take(&pa, &mut ia);
+        let y = take(&pb, &mut ib);
+        if x == y { continue; }
+        let (px, py) = (pieces(&x), pieces(&y));
+        if px.len() != py.len() {
+            if status(&x) == "err" { continue; }
+            return Err(format!("C18: stream, {} changed an answer: `{}` vs `{}`", what, &x[..x.len().min(160)], &y[..y.len().min(160)]));
+        }
+        for (u, v) in px.iter().zip(&py) {
+            if u != v && status(u) != "err" {
+                return Err(format!("C18: stream, {} changed an answer: `{}` vs `{}`", what, &u[..u.len().min(160)], &v[..v.len().min(160)]));
+            }
+        }
+    }
+    Ok(())
+}
+
+pub fn oracle_line3(line: &str, ann: &str) -> V {
+    let t: Vec<&str> = line.trim().split(' ').collect();
+    match t.as_slice() {
+        ["sprefix", _sp, ops, k, hexd] => oracle_sprefix(ops, nat(k), &unhex(hexd), ann),
+        ["stream", sp, sched, ops, hexd] => {
+            if ann.contains("faults") {
+                oracle_streamfault(sp, sched, ops, &unhex(hexd))
+            } else {
+                oracle_stream(sp, sched, ops, &unhex(hexd), ann)
+            }
+        }
+        _ => Ok(()),
+    }
 }
